@@ -914,3 +914,40 @@ def dict_view(tr, t):
         if z is not None and z[0] == "call" and z[1] == "zip" and len(z[2]) == 2 and not z[3]:
             return sub(z[2][0], POS), sub(z[2][1], POS), atom(("call", "len", (z[2][0],), ()))
     return None
+
+
+def dict_build(tr, t):
+    """(key, value, conditions, iterable) of a dict built with one entry per (selected) repetition, written as a dict
+    comprehension or as a loop storing into an initially empty dict; key / value / conditions are terms over the repetition's
+    own atoms (iterkey, iter, idx).  None otherwise."""
+    a = t.single_atom() if isinstance(t, T.R) else None
+    if a is None:
+        return None
+    if a[0] == "comp" and a[1] == "dict" and len(a[2]) == 2 and len(a[3]) == 1:
+        return a[2][0], a[2][1], list(a[4]), a[3][0]
+    u = unmut(t).single_atom() if isinstance(unmut(t), T.R) else None
+    if u is not None and u[0] == "loopvar" and isinstance(u[2], str) and u[2].startswith("$") and u[1] in tr.loops:
+        L = tr.loops[u[1]]
+        name = u[2][1:]
+        if L["pre"].locs.get(name) not in (atom(("dict", ())), atom(("call", "dict", (), ()))):
+            return None
+        inside = [e for e in tr.events if e.kind in ("localmut", "local") and e.d.get("name") == name and any(
+            (p.cond.single_atom() or ("",))[:2] == ("inloop", u[1]) for p in e.pc)]
+        if len(inside) != 1 or inside[0].kind != "localmut" or inside[0].how != "setitem" or len(inside[0].path) != 1:
+            return None
+        e = inside[0]
+        i = [k for k, p in enumerate(e.pc) if (p.cond.single_atom() or ("",))[:2] == ("inloop", u[1])][0]
+        conds = [p.cond for p in e.pc[i + 1:] if (p.cond.single_atom() or ("",))[0] != "inloop"]
+        return e.path[0][1], e.value, conds, L["iter"]
+    return None
+
+
+def len_norm(t):
+    """t with x.shape[0] written as len(x) (equal for arrays, frames and series): for comparisons that must not depend on the spelling"""
+    def f(z):
+        if z[0] == "sub" and z[2] == const(0):
+            b = z[1].single_atom()
+            if b is not None and b[0] == "getattr" and b[2] == "shape":
+                return atom(("call", "len", (b[1],), ()))
+        return None
+    return T.subst(t, f)
